@@ -38,7 +38,7 @@ from . import compat  # noqa: F401  (NumPy aliases before pybrops is imported)
 from . import entropy
 
 VERIF = os.path.dirname(os.path.dirname(os.path.abspath(__file__)))
-REPLAYS = os.path.join(VERIF, "replays")
+REPLAYS = os.environ.get("VERIF_REPLAYS") or os.path.join(VERIF, "replays")     # the self-tests point this at a scratch directory
 EVIDENCE = os.path.join(VERIF, "evidence")
 FINDINGS = os.path.join(VERIF, "known_findings.json")
 
